@@ -203,7 +203,9 @@ impl Dictionary {
     fn serialize(&self, out: &mut impl io::Write) -> Result<()> {
         writeln!(out, "<<")?;
         for (key, val) in self.iter() {
-            write!(out, "{} ", key)?;
+            // a key is a name object: same #xx escaping as any other name (ISO 32000-1 7.3.5, 7.3.7)
+            serialize_name(key, out)?;
+            write!(out, " ")?;
             val.serialize(out)?;
             writeln!(out)?;
         }
